@@ -519,3 +519,8 @@ pub(crate) fn directive_depth() -> usize {
 pub(crate) fn version_depth() -> usize {
     CURRENT_VERSION.with(|x| x.borrow().len())
 }
+
+#[cfg(feature = "verif_hooks")]
+pub(crate) fn keywords_region_count() -> usize {
+    KEYWORDS_REGIONS.with(|x| x.borrow().len())
+}
